@@ -122,6 +122,7 @@ def run(R, tier):
         elif op == 'pow':
             n = rng.choice([1, 2, 3, 4, 5, 6, 7])
             if len(x.args) > 3: n = min(n, 3)
+            if len(x.args) > 6: n = min(n, 2)
             if x.args:
                 r = x ** n; chk('opt_eqb poly_eqb (ppow_chain %s %s) (Some %s)' % (cp(x), cs(sched(n)), cp(r)), dict(meta, n=n)); oracle(op, r, sp(x) ** n, (x, n))
         elif op == 'cmp':
@@ -272,7 +273,7 @@ def run(R, tier):
             wants[key] = v
         if back != wants:
             viol('tosympy-float', f'tosympy() of {r} has the coefficients {back}, the stored ones are {wants}', op='tosympy', operands=[str(r)])
-    bad, shown = kv.run_cases('C17', cases, imports='Model.Util Model.Poly Theory.Poly')
+    bad, shown = kv.run_cases('C17', cases, imports='Model.Util Model.Poly Theory.Poly', shard=120, timeout=1200)
     for i in bad:
         m = cases[i]['meta']
         R.violation({'clause': 'model-' + m['op'], 'cls': m['cls']}, {'case': m, 'coq_check': cases[i]['check']},
